@@ -136,6 +136,43 @@ def f(x, n, b, xs):
   a = second(n)
   return a
 '''),
+    ('o:calls_inside_print_arguments', '''def describe(p):
+  chk('describe')
+  if p > 1:
+    return 'big'
+  return 'small'
+
+def pick(p):
+  chk('pick')
+  return p + 1
+
+def f(x, n, b, xs):
+  a = 0
+  print('v', describe(x), end='')
+  print(*[pick(v) for v in xs], sep=(lambda: describe(n))())
+  for i in range(n):
+    print(pick(i), describe(i), file=None)
+    a = a + 1
+  return a
+'''),
+    ('o:calls_inside_loop_directive_arguments', '''def limit(k):
+  chk('limit')
+  if k > 2:
+    return k + 5
+  return 7
+
+def f(x, n, b, xs):
+  a = 0
+  for i in range(n):
+    malt.experimental.set_loop_options(maximum_iterations=limit(n))
+    if i > x:
+      a = a + 1
+  w = 0
+  while w < n:
+    malt.experimental.set_loop_options(maximum_iterations=limit(x), parallel_iterations=limit(1))
+    w = w + 1
+  return (a, w)
+'''),
     ('o:while_in_lambda_caller', '''def f(x, n, b, xs):
   a = 0
   k = lambda u: u + 1 if u > x else u - 1
